@@ -393,8 +393,10 @@ KERNELS = ['mod_double', 'mod_float', 'div_double', 'floordiv_double', 'mod_doub
 def run(rep, tier, only=None):
     global _B
     snapshot.activate()
+    global MAXL
     if tier == 'thorough':
         os.environ.setdefault('VF_QTIMEOUT', '600')
+        MAXL = 9
     _B = harness.build_template('c06t', TEMPLATE)
     ks = [k for k in KERNELS if not only or only in k]
     rep.functions += ['Cython/Utility/CMath.c: ModFloat (__Pyx_mod_double, __Pyx_mod_float); generated zero-division checks and `//` lowering for C '
